@@ -318,9 +318,7 @@ Section Stmt.
            end
        end) m l l' = aeq_ss strict m l l'.
   Proof.
-    induction l as [|s r IH]; intros l' m; [reflexivity|]. cbn [aeq_ss]. destruct l' as [|s' r'].
-    - destruct s; try reflexivity. destruct strict; [reflexivity|apply IH].
-    - destruct (aeq_s strict m s s'); [apply IH|]. destruct s; try reflexivity. destruct strict; [reflexivity|apply IH].
+    intros l l' m. reflexivity.
   Qed.
 
   Lemma aeq_s_If : forall m c a b c' a' b',
@@ -385,25 +383,25 @@ Section Stmt.
     induction s using stmt_ind2; unfold ssim; intros s' m m' st1 st2 st1' Ha HR He.
     - (* Assign *) destruct s'; cbn [aeq_s] in Ha; try discriminate.
       destruct (vmatch m x x0 && all2 (aeq_i strict m) idx idx0 && aeq_x strict m rhs rhs0) eqn:E; [|discriminate].
-      inversion Ha; subst m'. apply andb_true_iff in E as [E E3]. apply andb_true_iff in E as [E1 E2].
+      inversion Ha; subst m'. apply andb_true_iff in E as [E Hrhs]. apply andb_true_iff in E as [Hname Hidx].
       cbn [exec] in *. bind_inv He. bind_inv He. bind_inv He. bind_inv He. bind_inv He. inversion He; subst.
-      rewrite (get_view_tr m st1 st2 HR _ _ _ E1 E0). cbn [bind].
-      rewrite (ints_tri m st1 st2 (aeq_i strict m) idx (proj2 (Forall_forall _ _) (fun e0 _ => aeq_i_tri m st1 st2 HR strict e0)) _ _ E2 E4).
-      cbn [bind]. rewrite (aeq_x_tr m st1 st2 HR strict _ _ _ E3 E5). cbn [bind]. rewrite E6. cbn [bind].
-      pose proof HR as [(Hh & _) _]. rewrite <- Hh, E7. cbn [bind]. eexists. split; [reflexivity|apply srel_heap, HR].
+      rewrite (get_view_tr m st1 st2 HR _ _ _ Hname E). cbn [bind].
+      rewrite (ints_tri st1 st2 (aeq_i strict m) idx (proj2 (Forall_forall _ _) (fun e0 _ => aeq_i_tri m st1 st2 HR strict e0)) _ _ Hidx E0).
+      cbn [bind]. rewrite (aeq_x_tr m st1 st2 HR strict _ _ _ Hrhs E1). cbn [bind]. rewrite E2. cbn [bind].
+      pose proof HR as [(Hh & _) _]. rewrite <- Hh, E3. cbn [bind]. eexists. split; [reflexivity|apply srel_heap, HR].
     - (* Reduce *) destruct s'; cbn [aeq_s] in Ha; try discriminate.
       destruct (vmatch m x x0 && all2 (aeq_i strict m) idx idx0 && aeq_x strict m rhs rhs0) eqn:E; [|discriminate].
-      inversion Ha; subst m'. apply andb_true_iff in E as [E E3]. apply andb_true_iff in E as [E1 E2].
+      inversion Ha; subst m'. apply andb_true_iff in E as [E Hrhs]. apply andb_true_iff in E as [Hname Hidx].
       cbn [exec] in *. bind_inv He. bind_inv He. bind_inv He. bind_inv He. bind_inv He. bind_inv He. inversion He; subst.
-      rewrite (get_view_tr m st1 st2 HR _ _ _ E1 E0). cbn [bind].
-      rewrite (ints_tri m st1 st2 (aeq_i strict m) idx (proj2 (Forall_forall _ _) (fun e0 _ => aeq_i_tri m st1 st2 HR strict e0)) _ _ E2 E4).
-      cbn [bind]. rewrite (aeq_x_tr m st1 st2 HR strict _ _ _ E3 E5). cbn [bind]. rewrite E6. cbn [bind].
-      pose proof HR as [(Hh & _) _]. rewrite <- Hh, E7. cbn [bind]. rewrite E8. cbn [bind].
+      rewrite (get_view_tr m st1 st2 HR _ _ _ Hname E). cbn [bind].
+      rewrite (ints_tri st1 st2 (aeq_i strict m) idx (proj2 (Forall_forall _ _) (fun e0 _ => aeq_i_tri m st1 st2 HR strict e0)) _ _ Hidx E0).
+      cbn [bind]. rewrite (aeq_x_tr m st1 st2 HR strict _ _ _ Hrhs E1). cbn [bind]. rewrite E2. cbn [bind].
+      pose proof HR as [(Hh & _) _]. rewrite <- Hh, E3. cbn [bind]. rewrite E4. cbn [bind].
       eexists. split; [reflexivity|apply srel_heap, HR].
     - (* WriteCfg *) destruct s'; cbn [aeq_s] in Ha; try discriminate.
       destruct (Pos.eqb c c0 && aeq_x strict m rhs rhs0) eqn:E; [|discriminate]. inversion Ha; subst m'.
-      apply andb_true_iff in E as [E1 E2]. apply Pos.eqb_eq in E1. subst.
-      cbn [exec] in *. bind_inv He. inversion He; subst. rewrite (aeq_x_tr m st1 st2 HR strict _ _ _ E2 E). cbn [bind].
+      apply andb_true_iff in E as [Hc Hrhs]. apply Pos.eqb_eq in Hc. subst.
+      cbn [exec] in *. bind_inv He. inversion He; subst. rewrite (aeq_x_tr m st1 st2 HR strict _ _ _ Hrhs E). cbn [bind].
       eexists. split; [reflexivity|]. destruct HR as [(H1 & H2 & H3) Hr]. split; [repeat split; cbn; congruence|exact Hr].
     - (* Pass *) destruct s'; cbn [aeq_s] in Ha; try discriminate. inversion Ha; subst. cbn in *. inversion He; subst. eauto.
     - (* If *) destruct s'; try (cbn [aeq_s] in Ha; discriminate). rewrite aeq_s_If in Ha.
@@ -434,7 +432,7 @@ Section Stmt.
     - (* Alloc *) destruct s'; cbn [aeq_s] in Ha; try discriminate.
       destruct (all2 (aeq_i strict m) shape shape0) eqn:E; [|discriminate]. inversion Ha; subst m'.
       cbn [exec] in *. bind_inv He.
-      rewrite (ints_tri m st1 st2 (aeq_i strict m) shape (proj2 (Forall_forall _ _) (fun e0 _ => aeq_i_tri m st1 st2 HR strict e0)) _ _ E E0).
+      rewrite (ints_tri st1 st2 (aeq_i strict m) shape (proj2 (Forall_forall _ _) (fun e0 _ => aeq_i_tri m st1 st2 HR strict e0)) _ _ E E0).
       cbn [bind]. destruct (all_pos a); [|discriminate]. unfold alloc_block in *. inversion He; subst.
       destruct HR as [(H1 & H2 & H3) Hr]. rewrite <- H1, <- H2, <- H3.
       eexists. split; [reflexivity|]. split; [repeat split|]. cbn [bind_var s_env]. apply env_rel_pair, Hr.
